@@ -22,7 +22,13 @@ def stored_rates(ctx, n):
         tg, tdesc = gens.make_targets(rng, dev, k=int(rng.integers(1, 4)), zmax=8)
         bg, bdesc = gens.make_gases(rng, k=1)
         opts, okw = gens.make_options(rng, RADIAL_DYNAMICS=False, RECOMPUTE_CROSS_SECTIONS=bool(k % 2))
-        res = advanced_simulation(dev, tg, t_max=float(10 ** rng.uniform(-5, -3)), bg_gases=bg, options=opts, rates=True, verbose=False)
+        try:
+            res = advanced_simulation(dev, tg, t_max=float(10 ** rng.uniform(-5, -3)), bg_gases=bg, options=opts, rates=True, verbose=False)
+        except ValueError as e:
+            # the drawn scenario's integration left the kernel's domain (a barely populated state driven to the temperature floor on the
+            # 60-node mesh, scipy rejects the non-finite Jacobian): not a statement about stored rates — next scenario
+            if "infs or NaNs" not in str(e): raise
+            ctx.count("integration_left_domain_skipped"); continue
         res = res if isinstance(res, tuple) else (res,)
         m = advcorr.retype(res[0].model)
         sol = res[0].res
